@@ -128,7 +128,17 @@ func (ft *FakeTarget) serveRequest(rw http.ResponseWriter, r *http.Request) {
 	hold, _ := strconv.Atoi(r.Header.Get("X-Verif-Hold"))
 	ft.w.rec.Emit("tg_beg", KV{"tg": ft.name, "r": rid, "path": r.URL.Path, "kind": kind})
 
-	if kind == "upgrade" {
+	if kind == "slowupgrade" {
+		select {
+		case <-time.After(ms(hold)):
+		case <-r.Context().Done():
+			ft.w.rec.Emit("tg_end", KV{"tg": ft.name, "r": rid, "how": "cancelled"})
+			return
+		case <-ft.w.stop:
+			return
+		}
+	}
+	if kind == "upgrade" || kind == "slowupgrade" {
 		hj, ok := rw.(http.Hijacker)
 		if !ok {
 			rw.WriteHeader(500)
